@@ -16,7 +16,7 @@ echo "suite_with_patch: $suite"
 echo "demo rc clean=$clean_rc patched=$bug_rc"
 cd /verif
 git -C /repo apply "$SEED/patch.diff" || exit 3
-out=$(./check "$PROP" --tier quick 2>&1 | grep -E "^VIOLATION" | head -3)
+out=$(./check "${CHECKAS:-$PROP}" --tier quick 2>&1 | grep -E "^VIOLATION" | head -3)
 rc=$?
 git -C /repo checkout -- .
 echo "check: ${out:-no violation reported}"
